@@ -290,8 +290,12 @@ pub fn profile(prop: &str, tier: &str) -> Profile {
                 (K::DropH, 1),
                 (K::Observe, 1),
                 (K::Yield, 2),
+                (K::SendTimeout, 1),
+                (K::RecvTimeout, 1),
+                (K::CloneH, 1),
             ]),
             pays: droppable(),
+            max_sched: 200,
             prober_ops: 6,
             ..base
         },
